@@ -176,6 +176,18 @@ PROPS = {
         technique="Verus contracts with closure specs on rustc-expanded probe wrappers + Kani complete harnesses (call counters, tagged pairs) + a compile obligation for the rebind program family",
         assumptions=["probe wrappers are one macro call each (/verif/probes/src/lib.rs)", "result::unwrap_err_or_else has no std method: the reference is the mirror of unwrap_or_else"],
     ), compile_probes={"c19r": "C19.rebind.arity3_to_6.compiles"}),
+    "C06": _p(
+        "String split iterators yield exactly the pieces std's split family yields",
+        kani=["c06"], verus=["c06"], level="proof",
+        level_text="Verus: one-step contracts of Split/RSplit (next, next_back, rev, copy, remainder, both empty-delimiter states) and SplitTerminator/RSplitTerminator (next, remainder), constructors: "
+                   "each step yields the piece before the first (after the last) delimiter and continues on the rest, the last piece is the whole remainder, an exhausted remainder ends a terminator iteration, "
+                   "an empty delimiter yields one character per step; the remainder accessor is the not-yet-split part; induction over steps gives std's sequences. "
+                   "Kani: whole iterations step by step against a reference split sequence (tied to str::split with char/closure patterns), strings <= 4 bytes",
+        technique="Verus one-step contracts on the extracted iterator methods (typewit pattern abstracted, L5) + Kani bounded whole-sequence harnesses",
+        assumptions=["the induction from the one-step contracts to `same sequence as str::split` is an argument in DESIGN.md; Kani checks whole sequences for bounded strings",
+                     "std's &str searcher (Two-Way) is too heavy for CBMC: the reference is tied to std through char and closure patterns"],
+        unchecked=["mixing next and next_back on one Split with an empty delimiter (the statement only speaks of reversal)"],
+    ),
 }
 
 NOT_APPLICABLE = {
@@ -186,5 +198,4 @@ NOT_APPLICABLE = {
 
 # properties whose check is not built yet (listed under not_applicable until it is)
 PENDING = {
-    "C06": "check under construction",
 }
